@@ -971,12 +971,34 @@ func c11KindTables(c *Ctx) {
 			}
 		})
 	}
+	var router *ssa.Function // the function that calls the numeric converter, when the routing test is written out in it
 	if pred == nil {
-		c.R.Undecided(rule, "tables", "-", "the predicate that routes a parameter kind to the numeric converter was not found")
-		return
+		for _, f := range c.P.ModFuncs {
+			if len(callsTo(f, conv)) > 0 && f != conv {
+				router = f
+			}
+		}
+		if router == nil {
+			c.R.Undecided(rule, "tables", "-", "the predicate that routes a parameter kind to the numeric converter was not found")
+			return
+		}
+		pred = router
 	}
-	member, isTable := c.membershipTable(pred)
+	member, isTable := []int64(nil), false
+	if router == nil {
+		member, isTable = c.membershipTable(pred)
+	}
 	inTable := func(k int64) (bool, bool) {
+		if router != nil {
+			// by cases on the target kind: is the numeric converter reached?
+			r := c.foldWith(router, 0, pinCall("Kind", cInt(k), func(call *ssa.Call) bool { return call.Call.IsInvoke() }))
+			for _, call := range r.ReachableCalls() {
+				if calleeOf(call) == conv {
+					return true, true
+				}
+			}
+			return false, true
+		}
 		if isTable {
 			for _, m := range member {
 				if m == k {
